@@ -41,6 +41,8 @@ def judge(cfg, idx, obs):
     if obs["exc"] is not None:
         return [(f"C11|{mk}|exception|{obs['exc'].split(':')[0]}", f"{mk}: test raised {obs['exc']}")]
     p, h = obs["p"], obs["hist"]
+    if obs.get("arg_type"):
+        out.append((f"C11|{mk}|argument-type", f"{mk}: {obs['arg_type']}"))
     if obs.get("ro_late_differs"):
         out.append((f"C11|{mk}|random-order-declaration-changed-later", f"{mk}: a test object whose random_order attribute is set to {ro} after construction does not answer like one built with it "
                     f"(overall p must be the {'smallest' if ro else 'last'} history entry)"))
